@@ -364,7 +364,7 @@ func runM(c *core.Ctx) int {
 	}
 	shards := c.Jobs
 	outs := core.ParallelMap(shards, shards, func(i int) *msim.Output {
-		o, trouble := mRunDriver(c, msim.Input{Prop: c.Prop, Tier: c.Tier, Seed: c.Seed, Shard: i, Shards: shards, N: (n + shards - 1) / shards, BudgetS: budget, Known: knownSigs, Triage: os.Getenv("VERIF_ALL") != "", Focus: os.Getenv("VERIF_FOCUS")}, fmt.Sprintf("s%d", i))
+		o, trouble := mRunDriver(c, msim.Input{Prop: c.Prop, Tier: c.Tier, Seed: c.Seed, Shard: i, Shards: shards, N: (n + shards - 1) / shards, Total: n, BudgetS: budget, Known: knownSigs, Triage: os.Getenv("VERIF_ALL") != "", Focus: os.Getenv("VERIF_FOCUS")}, fmt.Sprintf("s%d", i))
 		if o == nil {
 			o = &msim.Output{Trouble: trouble}
 		}
